@@ -571,7 +571,7 @@ def measure_steps(pname):
 
 def c03(tier):
     build("cli", "shim", "vh")
-    r = Result("C03", "exploration", "one evaluation = one schedule of N in {2,3} real `copia serve` processes on one root, every file-system call under ROOT and every read(0) gated by the LD_PRELOAD shim, the driver playing the clients (unique Put contents, content cut into 1-5 pieces); generators: complete enumeration of all <= 2-pre-emption schedules of six two-client one-operation programs, PCT-style priorities, uniform random walk; oracle: per-path Wing-Gong linearizability against a sequential CAS map (replies + final tree, List checked per path), conflict-copy present and intact for every non-committed Put, acknowledged content stays live until another writer can have replaced it (checked on a tree walk after EVERY step); distinct non-trivial = distinct step sequences in which two operations on one path overlapped in time")
+    r = Result("C03", "exploration", "one evaluation = one schedule of N in {2,3,4} real `copia serve` processes on one root, every file-system call under ROOT and every read(0) gated by the LD_PRELOAD shim, the driver playing the clients (unique Put contents, content cut into 1-5 pieces); generators: complete enumeration of all <= 2-pre-emption schedules of six two-client one-operation programs, PCT-style priorities, uniform random walk, scripted three-party programs (bystanders that connect and leave, foreign-commit chains, mixed-path writers); oracle: per-path Wing-Gong linearizability against a sequential CAS map (replies + final tree, List checked per path), conflict-copy present and intact for every non-committed Put, acknowledged content stays live until another writer can have replaced it (checked on a tree walk after EVERY step); distinct non-trivial = distinct step sequences in which two operations on one path overlapped in time")
     th = tier == "thorough"
     wroot = workdir("c03")
     jobs = []
